@@ -308,6 +308,8 @@ def ob_ray(g, shape, enc, tr):
                 pos = pos + [band]
         if hit:
             dist = g.out("dist")
+            if P.is_const(dist) and P.const_val(dist) <= 0:
+                return obs      # origin on the surface with everything that determines the hit pinned: (0, dist) is empty
             obs.append(Ob(tag + "hit distance is non-negative", [Constraint(GE, dist, "dist>=0")], hyps=pos,
                           twin=[Constraint(LT, dist, "[twin]")]))
             obs.append(Ob(tag + "no surface crossing on the ray before the reported hit", [Constraint(NE, f_s, "f(o+s d) != 0")],
